@@ -1236,7 +1236,7 @@ def run_(ctx):
             dns_pkts.insert(0, ("replay", bytes.fromhex(c["pkt"]), None, 0))
     if not quick:
         # coverage-guided search per entry point; what the fuzzers kept is replayed below against the model
-        found = fuzz_all(ctx, corpus, garbage, dns_pkts, int(os.environ.get("VERIF_FUZZTIME", "240")))
+        found = fuzz_all(ctx, corpus, garbage, dns_pkts, int(os.environ.get("VERIF_FUZZTIME", "180")))
         for v in found["ingest"]:
             if len(v) == 2 and isinstance(v[0], bytes):
                 st_cases.append({"op": "ingest", "msg": v[0].hex(), "v4": bool(v[1] & 1), "v6": bool(v[1] & 2), "geofail": bool(v[1] & 4)})
